@@ -15,6 +15,19 @@
 // writer's job.  The parent fills the pipe, sends SIGUSR1 repeatedly and reads slowly.
 static void on_usr1(int) {}
 
+// VERIF_ATEXIT=1: the LAST operation of the script is performed from an atexit handler that was registered before the
+// terminal wrote anything (a program that restores the cursor / leaves the alternate screen on its way out)
+static terminal *g_term = nullptr;
+static std::string g_last_op;
+static void last_op_at_exit()
+{
+    if (!g_term || g_last_op.empty()) return;
+    reader r(g_last_op);
+    std::string op = r.word();
+    if (op == "lv") { std::string inner = r.word(); apply_terminal_op_to(inner, r, to_one_named{*g_term}); }
+    else if (!op.empty()) apply_terminal_op(op, r, *g_term);
+}
+
 int main()
 {
     // VERIF_NOSYNC=1: the program has called std::ios::sync_with_stdio(false) (as programs that do a lot of output do):
@@ -30,14 +43,28 @@ int main()
     }
     bool const fmt_state = std::getenv("VERIF_COUT_STATE") != nullptr;
     bool const errno_state = std::getenv("VERIF_ERRNO") != nullptr;
+    bool const at_exit = std::getenv("VERIF_ATEXIT") != nullptr;
+    if (at_exit) std::atexit(last_op_at_exit);
+    // VERIF_REDIRECT=<fd>: half-way through the script the program redirects its standard output to that descriptor
+    // (dup2(fd, 1), as a program that re-opens its output does); what is written afterwards belongs to the new destination
+    int const redirect_fd = std::getenv("VERIF_REDIRECT") ? std::atoi(std::getenv("VERIF_REDIRECT")) : -1;
     std::string line;
     std::getline(std::cin, line);
     auto parts = split(line, ';');
     reader head(parts[0]);
     long bits = head.num();
-    terminalpp::stdout_channel ch;
-    terminal t{ch, read_behaviour(bits)};
-    for (std::size_t i = 1; i < parts.size(); ++i) {
+    // never destroyed: the atexit handler still uses them
+    auto &ch = *new terminalpp::stdout_channel;
+    auto &t = *new terminal{ch, read_behaviour(bits)};
+    g_term = &t;
+    std::size_t n_ops = parts.size();
+    if (at_exit && parts.size() > 2) { g_last_op = parts.back(); n_ops = parts.size() - 1; }
+    for (std::size_t i = 1; i < n_ops; ++i) {
+        if (redirect_fd >= 0 && i == (n_ops + 1) / 2) {
+            std::cout.flush();
+            std::fflush(stdout);
+            if (::dup2(redirect_fd, 1) < 0) return 5;
+        }
         reader r(parts[i]);
         std::string op = r.word();
         if (op.empty()) continue;
@@ -49,7 +76,11 @@ int main()
             std::cout.precision(3);
         }
         if (errno_state) errno = (i % 2) ? EAGAIN : EINTR;      // left over from something unrelated the program did
-        if (!apply_terminal_op(op, r, t)) {
+        if (op == "lv") {
+            std::string inner = r.word();
+            if (!apply_terminal_op_to(inner, r, to_one_named{t})) return 3;
+        }
+        else if (!apply_terminal_op(op, r, t)) {
             return 3;
         }
     }
